@@ -2,11 +2,11 @@ package core
 
 import (
 	"fmt"
-	"strings"
 	"go/ast"
 	"go/token"
 	"go/types"
 	"reflect"
+	"strings"
 )
 
 // Inlining. Many rules decide a property from the shape of one function: what
@@ -48,6 +48,103 @@ type inlineState struct {
 
 	closures    map[*types.Var]*FuncDecl
 	closureDefs map[*types.Var]int
+}
+
+// AnchorNames: functions the rules recognise by name (as callees or as units of
+// analysis). They keep their identity: the inliner never dissolves them.
+var AnchorNames = map[string]bool{
+	"Add":                         true,
+	"AddonDefs":                   true,
+	"AddonForKey":                 true,
+	"AddonRegistered":             true,
+	"Amount":                      true,
+	"AmountFromString":            true,
+	"ApplyRoundingRule":           true,
+	"Calculate":                   true,
+	"CanonicalJSON":               true,
+	"Clone":                       true,
+	"Code":                        true,
+	"Compare":                     true,
+	"Contains":                    true,
+	"Def":                         true,
+	"DetectDuplicateStamps":       true,
+	"Digest":                      true,
+	"Divide":                      true,
+	"Downscale":                   true,
+	"Empty":                       true,
+	"Envelop":                     true,
+	"Equals":                      true,
+	"Exp":                         true,
+	"ExtensionForKey":             true,
+	"Factor":                      true,
+	"Float64":                     true,
+	"For":                         true,
+	"From":                        true,
+	"Get":                         true,
+	"ISO":                         true,
+	"In":                          true,
+	"InCategories":                true,
+	"InCategoryRates":             true,
+	"Includes":                    true,
+	"Insert":                      true,
+	"Invert":                      true,
+	"IsEmpty":                     true,
+	"IsSigned":                    true,
+	"IsZero":                      true,
+	"JSONSchema":                  true,
+	"JSONSchemaExtend":            true,
+	"JSONWebSignature":            true,
+	"MakeAmount":                  true,
+	"MatchPrecision":              true,
+	"Matches":                     true,
+	"Merge":                       true,
+	"Multiply":                    true,
+	"Negate":                      true,
+	"NewHeader":                   true,
+	"Normalize":                   true,
+	"NormalizeIdentity":           true,
+	"NoteFromScenario":            true,
+	"Of":                          true,
+	"Percent":                     true,
+	"RegimeDef":                   true,
+	"RegimeDefFor":                true,
+	"RegimeDefFromContext":        true,
+	"RegisterCatalogueDef":        true,
+	"Remove":                      true,
+	"Rescale":                     true,
+	"RescaleDown":                 true,
+	"RescaleUp":                   true,
+	"Reverse":                     true,
+	"SameAs":                      true,
+	"SetRegime":                   true,
+	"SetUUID":                     true,
+	"Sign":                        true,
+	"SignedContext":               true,
+	"Split":                       true,
+	"String":                      true,
+	"Subtract":                    true,
+	"TagsIn":                      true,
+	"Upscale":                     true,
+	"Validate":                    true,
+	"ValidateWithContext":         true,
+	"Value":                       true,
+	"Verify":                      true,
+	"VerifySignature":             true,
+	"Zero":                        true,
+	"calculate":                   true,
+	"correctionDef":               true,
+	"get":                         true,
+	"intPow":                      true,
+	"matchRoundingPrecision":      true,
+	"matches":                     true,
+	"rateTotalFor":                true,
+	"removePreviousScenarioNotes": true,
+	"reset":                       true,
+	"round":                       true,
+	"unquote":                     true,
+	"validatePrecedingData":       true,
+	"verifySignature":             true,
+	"wrapError":                   true,
 }
 
 const (
@@ -234,7 +331,7 @@ func (st *inlineState) callee(call *ast.CallExpr, depth int) *FuncDecl {
 			return cfd
 		}
 	}
-	if fn == nil || fn.Pkg() != st.root.Obj.Pkg() || st.stack[fn] || st.count[fn] >= inlineMaxPerFunc || st.p.anchors[fn] {
+	if fn == nil || fn.Pkg() != st.root.Obj.Pkg() || st.stack[fn] || st.count[fn] >= inlineMaxPerFunc || st.p.anchors[fn] || AnchorNames[fn.Name()] {
 		return nil
 	}
 	// method values / interface methods are not calls of a declared body
@@ -1118,7 +1215,6 @@ func (p *Program) renumber(nd *ast.FuncDecl, orig *FuncDecl) {
 	walk(reflect.ValueOf(nd.Body))
 }
 
-
 // ---- normalisation -------------------------------------------------------
 
 // normalise rewrites, in the copy, two shapes into their plainest equivalent so
@@ -1362,7 +1458,6 @@ func (st *inlineState) switchToIf(x *ast.SwitchStmt) ast.Stmt {
 	return first
 }
 
-
 // unbreak removes `break label` statements from a statement list by nesting
 // what follows an early exit into the else branch. ok is false when a break of
 // the label remains somewhere it cannot be removed (inside a loop or switch).
@@ -1484,7 +1579,6 @@ func (st *inlineState) negate(c ast.Expr) ast.Expr {
 	return n
 }
 
-
 // indexToRange: `for i := 0; i < len(X); i++ { v := X[i]; … }` with a pure X
 // that the body neither assigns nor appends to, and an i the body does not
 // modify, is `for i, v := range X { … }`.
@@ -1567,7 +1661,6 @@ func (st *inlineState) indexToRange(x *ast.ForStmt) ast.Stmt {
 	return &ast.RangeStmt{For: x.For, Key: init.Lhs[0], Value: first.Lhs[0], TokPos: init.TokPos, Tok: token.DEFINE, X: coll,
 		Body: &ast.BlockStmt{Lbrace: x.Body.Lbrace, List: x.Body.List[1:], Rbrace: x.Body.Rbrace}}
 }
-
 
 // unrollLiteralRange: `for _, v := range []T{e1, …, en} { body }` (the slice given
 // directly or through a local defined once by that literal), with at most 24
